@@ -6,4 +6,4 @@ def run(tier, replay=None):
     return run_rt("C03", tier, replay, "all", COMMON_ASSUMPTIONS + [
         "ExpectedJobs = MroSem.Invocations(p): one fork per element/key, chunk count as returned by split, nothing for disabled or empty/null mapped calls",
         "a run that reaches quiescence without completing counts as a skipped job",
-    ])
+    ], mc=("Sched", "Dyn", "Dis"))
